@@ -283,3 +283,20 @@ def perturb(t, mode='last'):
         old.parent = None
         old = up
     return True
+
+
+def build_via_tiger(mt, scratch_dir):
+    """The same model tree read by the real TIGER-XML reader; when the root has a single child the
+    VROOT element is left out of the file, so that the reader has to add it (edges listed in reverse)."""
+    from . import codecs
+    from trees import treeinput
+    _via_counter[0] += 1
+    path = os.path.join(scratch_dir, 'via-%d-%d.xml' % (os.getpid(), _via_counter[0] % 4))
+    with open(path, 'w', encoding='utf-8') as f:
+        f.write(codecs.encode_tigerxml([mt], implicit_vroot=True, edge_order='rev', nt_order='rev'))
+    with quiet():
+        trees_ = list(treeinput.tigerxml(path, 'utf-8', quiet=True))
+    os.unlink(path)
+    if len(trees_) != 1:
+        raise AssertionError('harness: TIGER-XML reader did not return exactly one tree')
+    return trees_[0]
